@@ -33,6 +33,9 @@ type zzSpec struct {
 	enumS []string
 	enumF []float64
 
+	enumAny  []interface{} // kind "enum": the members as decoded JSON values (any primitive type, null)
+	enumType string        // ... and the declared type, if any
+
 	hasDefault bool
 	defF       float64
 	defS       string
